@@ -463,7 +463,7 @@ func rejectsEarly(h *honest, doc []byte) bool {
 
 // hangPatience: how long the consumer of a Decrypt stream waits for the error of a segment that cannot be authenticated
 // when the source stays open; generous (the real code needs microseconds).
-const hangPatience = 3 * time.Second
+const hangPatience = 10 * time.Second
 
 // ---------------------------------------------------------------------------
 // model scripts
